@@ -38,6 +38,7 @@ pub fn project<V>(
     let mut tables = vec![];
     for t in &s.tables {
         let mut bins = vec![];
+        let mask = (t.bins.len() as u64).wrapping_sub(1);
         for b in &t.bins {
             bins.push(match b {
                 BinInfo::Empty => json!({"kind": "empty"}),
@@ -50,12 +51,13 @@ pub fn project<V>(
                     let ns: Vec<Value> = nodes
                         .iter()
                         .map(|n| {
-                            json!({"n": id(n.addr), "k": n.key.id, "tag": n.key.tag, "h": n.hash as i64,
-                                   "hok": n.hash == h.hash_of(n.key.id),
+                            json!({"n": id(n.addr), "k": n.key.id, "tag": n.key.tag,
+                                   "hok": (n.hash == h.hash_of(n.key.id)) as u8,
+                                   "hb": h.hash_of(n.key.id) & mask,
                                    "v": n.value.map(val).unwrap_or(0), "va": id(n.value_addr)})
                         })
                         .collect();
-                    json!({"kind": "list", "a": id(*addr), "locked": locked, "nodes": ns})
+                    json!({"kind": "list", "a": id(*addr), "locked": *locked as u8, "nodes": ns})
                 }
                 BinInfo::Tree {
                     addr,
@@ -71,18 +73,20 @@ pub fn project<V>(
                         .iter()
                         .map(|n| {
                             let tl = n.tree.expect("tree node has links");
-                            json!({"n": id(n.addr), "k": n.key.id, "tag": n.key.tag, "h": n.hash as i64,
-                                   "hok": n.hash == h.hash_of(n.key.id),
+                            json!({"n": id(n.addr), "k": n.key.id, "tag": n.key.tag,
+                                   "hok": (n.hash == h.hash_of(n.key.id)) as u8,
+                                   "hb": h.hash_of(n.key.id) & mask,
+                                   "hlo": n.hash & 0xfffff, "hhi": (n.hash >> 20) & 0xfffff,
                                    "v": n.value.map(val).unwrap_or(0), "va": id(n.value_addr),
                                    "next": id(n.next), "prev": id(tl.prev), "parent": id(tl.parent),
-                                   "left": id(tl.left), "right": id(tl.right), "red": tl.red})
+                                   "left": id(tl.left), "right": id(tl.right), "red": tl.red as u8})
                         })
                         .collect();
                     let io: Value = match in_order {
                         Some(v) => json!(v.iter().map(|a| id(*a)).collect::<Vec<u64>>()),
                         None => Value::Null,
                     };
-                    json!({"kind": "tree", "a": id(*addr), "locked": locked, "ls": lock_state,
+                    json!({"kind": "tree", "a": id(*addr), "locked": *locked as u8, "ls": lock_state,
                            "waiter": id(*waiter), "root": id(*root), "first": id(*first),
                            "nodes": ns, "inorder": io})
                 }
